@@ -17,8 +17,21 @@ def parseLit (w : String) : Option Lit :=
     | 'S' => (parseHexString (rest1 w)).map .str
     | _ => none
 
-def parseOperand (w : String) : Option Operand :=
-  if w.startsWith "f:" then some (.field (w.drop 2).toString) else (parseLit w).map .lit
+def parseArith (w : String) : Option ArithOp :=
+  match w with
+  | "add" => some .add | "sub" => some .sub | "mul" => some .mul | "div" => some .div
+  | _ => none
+
+/-- an operand: `f:<name>` | a literal token | `ar <add|sub|mul|div> <operand> <operand>` -/
+partial def parseOperand : List String → Option (Operand × List String)
+  | "ar" :: op :: ws => do
+    let op ← parseArith op
+    let (a, ws) ← parseOperand ws
+    let (b, ws) ← parseOperand ws
+    pure (.arith op a b, ws)
+  | w :: ws =>
+    if w.startsWith "f:" then some (.field (w.drop 2).toString, ws) else (parseLit w).map fun l => (.lit l, ws)
+  | [] => none
 
 def parseOp (w : String) : Option CmpOp :=
   match w with
@@ -32,13 +45,13 @@ def parseOther (w : String) : Option OtherOp :=
 
 /-- prefix notation: `cmp <op> <l> <r>` | `oth <in|nin|is> <l> <r>` | `atom <o>` | `and A B` | `or A B` | `not A` -/
 partial def parseExpr : List String → Option (FExpr × List String)
-  | "cmp" :: op :: l :: r :: ws => do
-    let op ← parseOp op; let l ← parseOperand l; let r ← parseOperand r
+  | "cmp" :: op :: ws => do
+    let op ← parseOp op; let (l, ws) ← parseOperand ws; let (r, ws) ← parseOperand ws
     pure (.cmp op l r, ws)
-  | "oth" :: op :: l :: r :: ws => do
-    let op ← parseOther op; let l ← parseOperand l; let r ← parseOperand r
+  | "oth" :: op :: ws => do
+    let op ← parseOther op; let (l, ws) ← parseOperand ws; let (r, ws) ← parseOperand ws
     pure (.other op l r, ws)
-  | "atom" :: o :: ws => (parseOperand o).map fun o => (.atom o, ws)
+  | "atom" :: ws => (parseOperand ws).map fun (o, ws) => (.atom o, ws)
   | "and" :: ws => do
     let (a, ws) ← parseExpr ws; let (b, ws) ← parseExpr ws
     pure (.and a b, ws)
@@ -83,16 +96,25 @@ def step (st : Unit) (line : String) : Unit × String :=
     | [te, tv], [w, s, _dw, _ds, s2] =>
       match parseExpr te, parseEvent tv with
       | some (e, []), some ev =>
-        let mw := whereAccepts e ev
+        -- through the engine `.where` (and the derived stream's `.where`) sees the folded expression,
+        -- the step filter the expression as written; the direct calls get the expression as written
+        let fe := foldE e
+        let mw := whereAccepts fe ev
         let ms := stepAccepts e ev
-        let model := s!"{b01 mw} {b01 ms} {b01 mw} {b01 ms} {b01 ms}"
+        let ms2 := stepAccepts fe ev
+        let model := s!"{b01 mw} {b01 ms} {b01 (whereAccepts e ev)} {b01 ms} {b01 ms2}"
         if w != s || w != s2 then
-          -- a failing input of C09; by `where_step_agree_partial` the guard fails, and says why
-          match whyWeak e ev with
+          -- a failing input of C09; by `where_step_agree_frontend` / `where_step_agree_partial` a guard fails, and says why
+          let reason : Option (String × String) :=
+            if !identFree e then some ("C09-fold-identity", "the parser applies its type-blind identity rewrites (x*1, x+0, x-0, x/1 -> x; x*0 -> 0) to .where but not to the step filter")
+            else match orElse (whyWeak e ev) (whyWeak fe ev) with
+              | some f => some (findingId f, findingWhy f)
+              | none => none
+          match reason with
           | none => (st, s!"JUDGE C09 the filter selects differently (where={w} step={s} derived-stream step={s2}) outside every listed guard")
-          | some f =>
+          | some (id, why) =>
             if model != impl then (st, s!"DIFF model={model}")
-            else (st, s!"KNOWN[{findingId f}] where={w} step={s}: {findingWhy f}")
+            else (st, s!"KNOWN[{id}] where={w} step={s} derived-stream step={s2}: {why}")
         else if model != impl then (st, s!"DIFF model={model}")
         else (st, "ok")
       | _, _ => (st, "BADLINE")
